@@ -52,7 +52,8 @@ def h_causal(ctx, name='sma', n=8, variant=0, source_type=None):
                 if not ok:
                     ctx.prove(False, 'C13:prefix-equals-full-series', {'indicator': name, 'field': fld, 'k': k, 'j': j, 'kind': 'nan-pattern'})
                 elif cond is not True:
-                    ctx.prove(cond, 'C13:prefix-equals-full-series', {'indicator': name, 'field': fld, 'k': k, 'j': j})
+                    ctx.prove(cond, 'C13:prefix-equals-full-series', {'indicator': name, 'field': fld, 'k': k, 'j': j},
+                              witness=indh.clear_difference(arr[j], p[j]))
     ctx.event('indicator-compared')
     if compared:
         ctx.event('entries-compared', compared)
